@@ -517,6 +517,140 @@ pub fn cheat_oracle<E: Engine>(_ctx: &RunCtx, spec: &CheatSpec, log: &mut CaseLo
     Ok(())
 }
 
+
+// ---------------------------------------------------------------------------------------------------------------------
+// garbage BATCHES over F: the verifier's final result must equal sum_i weight_i x reference residual_i
+
+#[derive(Clone, Debug, Serialize, Deserialize)]
+pub struct GarbageBatchSpec {
+    pub bits_idx: u8,
+    pub ext: usize,
+    /// (aggregation log2, capacity log2 above aggregation) per member
+    pub members: Vec<(u8, u8)>,
+    pub bulk: u64,
+    pub ctx: CtxSpec,
+    pub terms: u8,
+}
+
+fn garbage_batch_strategy() -> impl Strategy<Value = GarbageBatchSpec> {
+    (
+        0u8..7,
+        1usize..=6,
+        prop::collection::vec((0u8..=3, 0u8..=2), 2..=4),
+        any::<u64>(),
+        ctx_strategy(),
+        0u8..4,
+    )
+        .prop_map(|(bits_idx, ext, members, bulk, ctx, terms)| GarbageBatchSpec {
+            bits_idx,
+            ext,
+            members,
+            bulk,
+            ctx,
+            terms,
+        })
+}
+
+pub fn garbage_batch_oracle(_ctx: &RunCtx, spec: &GarbageBatchSpec, log: &mut CaseLog) -> Result<(), String> {
+    F::reset_case();
+    let bits = crate::gen::BITS[spec.bits_idx as usize % 7].max(2);
+    let mut rng = chacha(spec.bulk);
+    let (h, g) = <FP as Grp>::pedersen(spec.ext);
+    let mut sts = vec![];
+    let mut proofs = vec![];
+    let mut ref_res: Vec<FP> = vec![];
+    let mut cfgs = vec![];
+    for (i, (m_log, c_log)) in spec.members.iter().enumerate() {
+        let mut m = 1usize << m_log;
+        while bits * m > 256 && m > 1 {
+            m /= 2;
+        }
+        let cap = m << c_log;
+        let cfg = Cfg { bits, m, cap, ext: spec.ext };
+        let mut pool_g = vec![];
+        let mut pool_h = vec![];
+        for j in 0..cap {
+            pool_g.extend(vec_gens::<FP>(b'G', j as u32, bits));
+            pool_h.extend(vec_gens::<FP>(b'H', j as u32, bits));
+        }
+        let base = 0x10_0000_0000u128 * (i as u128 + 1);
+        let mut cnt = 0u128;
+        let mut gp = |rng: &mut rand_chacha::ChaCha12Rng| {
+            cnt += 1;
+            garbage_point(rng, &cfg, spec.terms, &pool_g, &pool_h, base + cnt)
+        };
+        let commitments: Vec<FP> = (0..m).map(|_| gp(&mut rng)).collect();
+        let promises: Vec<Option<u64>> = (0..m)
+            .map(|_| match rng.next_u32() % 3 {
+                0 => None,
+                _ => Some(rng.next_u64() & mask_of(bits)),
+            })
+            .collect();
+        let k = cfg.rounds();
+        let marker = 0x7_0000_0000u128 + i as u128;
+        let mut b = gp(&mut rng);
+        b.add_scaled(&Scalar::ONE, &FP::basis(marker));
+        let pf = Proof {
+            ext: spec.ext as u8,
+            d1: (0..spec.ext).map(|_| rand_scalar(&mut rng).to_bytes()).collect(),
+            a: gp(&mut rng).enc(),
+            a1: gp(&mut rng).enc(),
+            b: b.enc(),
+            r1: rand_scalar(&mut rng).to_bytes(),
+            s1: rand_scalar(&mut rng).to_bytes(),
+            l: (0..k).map(|_| gp(&mut rng).enc()).collect(),
+            r: (0..k).map(|_| gp(&mut rng).enc()).collect(),
+        };
+        let params = F::params(bits, cap, spec.ext).map_err(|e| format!("{:?}", e))?;
+        sts.push(RangeStatement::init(params, commitments.clone(), promises.clone(), None).map_err(|e| format!("{:?}", e))?);
+        proofs.push(RangeProof::<FP>::from_bytes(&pf.encode()).map_err(|e| format!("{:?}", e))?);
+        let rst = Stmt {
+            bits,
+            h: h.clone(),
+            g: g.clone(),
+            commitments,
+            promises,
+        };
+        ref_res.push(verify_residual_opts(&mut spec.ctx.transcript(), &rst, &pf, false).map_err(|e| format!("reference refuses a well-formed garbage member: {:?}", e))?);
+        cfgs.push(cfg);
+    }
+    let mut ts: Vec<_> = (0..sts.len()).map(|_| spec.ctx.transcript()).collect();
+    fp::msm_log_start();
+    let lib = guarded(|| F::verify(&mut ts, &sts, &proofs, VerifyAction::VerifyOnly));
+    let msm = fp::msm_log_stop();
+    let lib = lib?;
+    let res = msm.last().ok_or(format!("{} batch verifier performed no precomputed multiscalar multiplication", INCONCLUSIVE))?;
+    if lib.is_ok() {
+        return Err("verifier ACCEPTED a batch of garbage proofs".into());
+    }
+    let mut expect = FP::default();
+    for (i, rr) in ref_res.iter().enumerate() {
+        let w = -res.coef(0x7_0000_0000u128 + i as u128);
+        if w == Scalar::ZERO {
+            return Err(format!("the factor of member {} in the batch equation is zero", i));
+        }
+        expect.add_scaled(&w, rr);
+    }
+    if &expect != res {
+        let keys: std::collections::BTreeSet<u128> = expect.0.keys().chain(res.0.keys()).copied().collect();
+        let bad = keys.iter().filter(|k| expect.coef(**k) != res.coef(**k)).count();
+        return Err(format!(
+            "batch of {} garbage members (aggregation / capacity {:?}): the verifier's final equation differs from sum_i weight_i x reference relation_i on {} coordinates",
+            sts.len(),
+            cfgs.iter().map(|c| (c.m, c.cap)).collect::<Vec<_>>(),
+            bad
+        ));
+    }
+    let mix: std::collections::BTreeSet<(usize, usize)> = cfgs.iter().map(|c| (c.m, c.cap)).collect();
+    log.label(format!("garbage-batch:members={}", sts.len()));
+    log.label(format!("garbage-batch:distinct-(m,cap)={}", mix.len()));
+    log.label(format!("bits={}", bits));
+    log.label(format!("ext={}", spec.ext));
+    log.nontrivial(&(bits, spec.ext, mix, spec.bulk));
+    log.sample(json!({"kind": "garbage-batch", "bits": bits, "ext": spec.ext, "members": cfgs, "residual_coordinates": res.0.len()}));
+    Ok(())
+}
+
 fn lat<E: Engine>(ctx: &RunCtx) -> Vec<Cfg> {
     let (s, m) = sizes::<E>(ctx);
     lattice(s, m)
@@ -555,7 +689,7 @@ pub fn def() -> PropertyDef {
         rule: "Three generators. (g3, engine F) shape-correct GARBAGE proofs: random scalars, points = random sparse combinations of h, g_k, \
                G_i, H_i (also beyond bits*m when capacity > m) plus fresh basis ids, random commitments and promises; oracle: the library's final \
                multiscalar result equals weight x the independent reference residual on EVERY coordinate (weight read from a marker planted in B, \
-               must be nonzero); plus shape-incorrect variants (rounds +-1, d1 +-1, tag) where both must refuse. (g1, R and F) honest proofs with \
+               must be nonzero); plus shape-incorrect variants (rounds +-1, d1 +-1, tag) where both must refuse. (g3b, engine F) BATCHES of 2-4 such garbage proofs with different aggregation / capacity: final result == sum_i weight_i x reference residual_i, every weight nonzero. (g1, R and F) honest proofs with \
                0-2 proof mutation operators and 0-1 statement mutations; (g2, R and F) proofs from the reference prover for false statements \
                (digit 2, bad complement, other value, promise off by one, other blinding). Oracle for g1/g2, two implications: library Ok => \
                reference relation holds; relation holds and no documented refusal applies => library Ok. Non-trivial = reference residual nonzero \
@@ -575,11 +709,19 @@ pub fn def() -> PropertyDef {
                 |ctx: &RunCtx, f: Option<&Cfg>| garbage_strategy(cfgs::<F>(ctx, f)),
                 garbage_oracle,
             ),
+            sub(
+                "F/garbage-batch-residual",
+                crate::runner::no_fixed,
+                (2500, 60_000),
+                |_: &RunCtx, _: Option<&()>| garbage_batch_strategy(),
+                garbage_batch_oracle,
+            ),
             mut_sub::<F>((4000, 100_000)),
             mut_sub::<R>((600, 8000)),
             cheat_sub::<F>((1500, 30_000)),
             cheat_sub::<R>((300, 4000)),
             crate::props::c03::cancel_sub::<F>((400, 8000)),
+            crate::fuzzdec::corpus_sub("verify"),
         ],
     }
 }
